@@ -1252,7 +1252,8 @@ namespace BitSerializer::MsgPack::Detail
 			}
 
 			mBuffer.clear();
-			mBuffer.reserve(remainingSize);
+			// The declared size cannot be trusted, limit the memory which is allocated in advance
+			mBuffer.reserve(remainingSize < MaxEstimatedSize ? remainingSize : MaxEstimatedSize);
 			while (remainingSize != 0)
 			{
 				if (const std::string_view chunk = mBinaryStreamReader.ReadByChunks(remainingSize); !chunk.empty())
